@@ -125,7 +125,7 @@ func genericOracle(p *sim.Plan, out *sim.Outcome) []sim.Violation {
 		if i := indexByte(pn, '\n'); i > 0 {
 			first = pn[:i]
 		}
-		vs = append(vs, viol(p.Prop, "panic", "panic:"+first, "broker code panicked (recovered by its own loop): %s", pn))
+		vs = append(vs, viol(p.Prop, "panic", "panic:"+normDigits(first), "broker code panicked (recovered by its own loop): %s", pn))
 	}
 	return vs
 }
@@ -161,4 +161,22 @@ func effResp(h *sim.History, o *sim.OpRec, ends map[int]int) int {
 		return e
 	}
 	return -1
+}
+
+// normDigits replaces every run of digits by N (signatures must not depend on incidental numbers).
+func normDigits(s string) string {
+	var b []byte
+	in := false
+	for i := 0; i < len(s); i++ {
+		if s[i] >= '0' && s[i] <= '9' {
+			if !in {
+				b = append(b, 'N')
+			}
+			in = true
+			continue
+		}
+		in = false
+		b = append(b, s[i])
+	}
+	return string(b)
 }
